@@ -135,6 +135,8 @@ rt!(rt_u8, u8, u8);
 rt!(rt_i8, i8, i8);
 rt!(rt_u16, u16, u16);
 rt!(rt_i16, i16, i16);
+rt!(rt_u32, u32, u32);
+rt!(rt_i32, i32, i32);
 
 pub fn rt_bool<S: Src>(s: &mut S) {
     let v = s.bool();
@@ -166,6 +168,8 @@ harnesses! {
     #[kani::unwind(6)] c32_rt_i8 => rt_i8;
     #[kani::unwind(8)] c32_rt_u16 => rt_u16;
     #[kani::unwind(8)] c32_rt_i16 => rt_i16;
+    #[kani::unwind(13)] c32_rt_u32 => rt_u32;
+    #[kani::unwind(13)] c32_rt_i32 => rt_i32;
     #[kani::unwind(7)] c32_rt_bool => rt_bool;
     #[kani::unwind(6)] c32_rt_char_ascii => rt_char_ascii;
 }
